@@ -32,8 +32,24 @@ var defaults = []string{"some-default", `""`, `"quoted"`, "a b c", "x", "0", `""
 const wordChars = "ABCDEFGHIJKLMNOPQRSTUVWXYZabcdefghijklmnopqrstuvwxyz0123456789_"
 
 type tgen struct {
-	r   *rand.Rand
-	env map[string]string // variables that are set in this case (value may be "")
+	r    *rand.Rand
+	env  map[string]string // variables that are set in this case (value may be "")
+	refd map[string]bool   // names some template of this case refers to
+}
+
+// variants sets, for a referenced name with letters, the upper- and/or lower-case spelling of
+// the name (where it differs from the name, is not itself referenced and is still free) to a
+// value of its own: `${{env:NAME}}` is about NAME exactly, whatever other spellings hold.
+func (t *tgen) variants(name string) {
+	for _, v := range []string{strings.ToUpper(name), strings.ToLower(name)} {
+		if v == name || t.refd[v] || t.r.IntN(3) == 0 {
+			continue
+		}
+		if _, taken := t.env[v]; taken {
+			continue
+		}
+		t.env[v] = "other-spelling:" + v
+	}
 }
 
 func (t *tgen) ws() string { return spacings[t.r.IntN(len(spacings))] }
@@ -46,22 +62,32 @@ func (t *tgen) name() string {
 			keys = append(keys, k)
 		}
 		sort.Strings(keys)
-		return keys[t.r.IntN(len(keys))]
+		nm := keys[t.r.IntN(len(keys))]
+		t.refd[nm] = true
+		return nm
 	}
+	nm := varPool[t.r.IntN(len(varPool))]
 	if t.r.IntN(4) == 0 {
 		n := 1 + t.r.IntN(8)
 		b := make([]byte, n)
 		for i := range b {
 			b[i] = wordChars[t.r.IntN(len(wordChars))]
 		}
-		return "GTVR" + string(b) // random names share a prefix no real variable has
+		nm = "GTVR" + string(b) // random names share a prefix no real variable has
 	}
-	return varPool[t.r.IntN(len(varPool))]
+	if !t.refd[nm] {
+		t.refd[nm] = true
+		if t.r.IntN(2) == 0 {
+			t.variants(nm) // NAME unset or set, other spellings of it set to something else
+		}
+	}
+	return nm
 }
 
 // setupEnv decides, per pool variable, set / set-empty / unset (on top of the dimension env).
 func (t *tgen) setupEnv(dimEnv map[string]string) {
 	t.env = map[string]string{}
+	t.refd = map[string]bool{}
 	for k, v := range dimEnv {
 		t.env[k] = v
 	}
@@ -191,6 +217,8 @@ func main() {
 	gcx.CleanEnv()
 	for _, n := range varPool { // "unset" must mean unset, whatever the ambient environment holds
 		os.Unsetenv(n)
+		os.Unsetenv(strings.ToUpper(n))
+		os.Unsetenv(strings.ToLower(n))
 	}
 	out := gal.NewOut(*prefix)
 	defer out.Close()
